@@ -65,6 +65,8 @@ def gen_cases(tier, rng):
     cases.append('G:a:f=0 arg:l:b0:init=0 arg:m:b1:init=0 con:one_of:l;m G:b:f=0 arg:x:b2:init=0 argv:2d78 exp:reject mut:group-end-checks')
     cases.append('G:b:f=0 arg:x:b0:init=0 G:a:f=0 arg:l:vi0:multi argv:2d6c,31,2d78,32 exp:reject mut:group-free-value')
     cases.append('G:a:f=0 arg:l:b0:init=0 G:b:f=0 arg:l,long:b1:init=0 argv:- exp:setup mut:shared-key')
+    cases.append('G:a:f=0 arg:a,xray:b0:init=0 G:b:f=0 arg:b,xray:b1:init=0 argv:- exp:setup mut:shared-key')
+    cases.append('G:a:f=0 arg:a,xray:b0:init=0 G:b:f=0 arg:a,yankee:b1:init=0 argv:- exp:setup mut:shared-key')
     cases.append('G:m0:f=0 arg:output:b0:init=0 G:m1:f=0 arg:out:b1:init=0 argv:2d2d6f7574 exp:b0=0;b1=1 mut:none')
     guard = 0
     while len(cases) < n and guard < n * 30:
@@ -91,7 +93,19 @@ def gen_cases(tier, rng):
             a = rng.choice(mem[0])
             dup = G.Arg()
             dup.kind = 'b'; dup.slot = 'b3'; dup.init = '0'
-            dup.short, dup.long = (a.short, None) if a.short and rng.chance(1, 2) else (None, a.long or None)
+            form = rng.below(4)
+            if form == 0 and a.short:
+                dup.short, dup.long = a.short, None
+            elif form == 1 and a.long:
+                dup.short, dup.long = None, a.long
+            elif form == 2 and a.long:
+                # same long key, another short key: a contradicting pair across members
+                free = [ch for ch in 'ABCDEFGH' if ch not in [x.short for x in args]]
+                dup.short, dup.long = free[0], a.long
+            elif a.short:
+                dup.short, dup.long = a.short, 'zz-other-long'
+            else:
+                dup.short, dup.long = None, a.long
             if not dup.short and not dup.long:
                 continue
             if any(x.slot == 'b3' for x in args):
